@@ -277,14 +277,17 @@ CALLS = {   # name -> (layout, rhs caller, jacobian caller, violation class of t
 CLS = {"default": "default", "by_state": "bystate", "iv": "iv"}
 
 
-def point_check(spec, z, call, m=None):
-    """(cls, what, err) or None for one call at one point; the property stated directly on the implementation"""
+def point_check(spec, z, call, m=None, ztype=None):
+    """(cls, what, err) or None for one call at one point; the property stated directly on the implementation.
+    ztype: how the (integer-valued) point is handed over — 'intlist' (Python ints), 'intarray' (int64 ndarray), 'float32'"""
     m = m or build(spec)
     layout, rhs, jac = CALLS[call]
     z = np.asarray(z, dtype=float)
     theta = np.asarray(spec["theta"], dtype=float)
+    z_call = {None: lambda: z, "intlist": lambda: [int(v) for v in z], "intarray": lambda: np.array(z, dtype=np.int64),
+              "tuple": lambda: tuple(float(v) for v in z)}[ztype]()
     try:
-        r = np.asarray(rhs(m, z, 0.0), dtype=float)
+        r = np.asarray(rhs(m, z_call, 0.0), dtype=float)
     except Exception as e:      # noqa: B902
         return ("rhs-" + CLS[call], "%s right-hand side raised %s: %s on a valid %d-state %d-parameter model"
                 % (call, type(e).__name__, e, spec["nS"], spec["nP"]), None)
@@ -463,6 +466,16 @@ def run_search(ck):
                     ck.violation(cls, what, dict(kind="point", call=call, spec=spec, z=z.tolist()))
                 elif err is not None:
                     worst["jacobian"] = max(worst["jacobian"], err)
+        # the same systems at an integer-valued point handed over as Python ints / an int64 array / a tuple: the value of
+        # the right-hand side does not depend on the number type of the point
+        for call in calls:
+            n = nS + nS * nP + (nS * nS if call == "iv" else 0)
+            z = np.concatenate([rng.integers(1, 4, nS), rng.integers(-2, 3, n - nS)]).astype(float)
+            zt = ["intlist", "intarray", "tuple"][int(rng.integers(0, 3))]
+            cls, what, err = point_check(spec, z, call, m, ztype=zt)
+            ck.case(dict(kind="point", call=call, nS=nS, nP=nP, eqs=spec["eqs"], z=z.tolist(), ztype=zt), nontrivial=True)
+            if cls:
+                ck.violation(cls + "-" + zt, what + " [point handed over as %s]" % zt, dict(kind="point", call=call, spec=spec, z=z.tolist(), ztype=zt))
         for cls, what, inp in sequence_check(spec, m, rng, calls):
             ck.violation(cls, what, inp)
         ck.case(dict(kind="sequence", nS=nS, nP=nP, eqs=spec["eqs"]), nontrivial=True)
@@ -536,7 +549,7 @@ def replay(ck, data):
         return None
     spec = inp["spec"]
     if inp["kind"] == "point":
-        cls, what, _ = point_check(spec, np.array(inp["z"], dtype=float), inp["call"])
+        cls, what, _ = point_check(spec, np.array(inp["z"], dtype=float), inp["call"], ztype=inp.get("ztype"))
     elif inp["kind"].startswith("sequence"):
         r = sequence_check(spec, build(spec), np.random.default_rng(0), [inp["call"]])
         return r[0][1] if r else None
